@@ -1,10 +1,12 @@
 """Which units decide which property, and what is claimed (feeds MANIFEST.json)."""
 from catalog import P, NOT_APPLICABLE, PROPERTY_UNITS
 
-P("C25", [("K1", r"^k1_(c_db|c_bv|l_shift)"), ("K2", None), ("K2S", None)],
+P("C25", [("K1", r"^k1_(c_db|c_bv|l_shift)"), ("K2", None), ("K2S", None), ("V16", None)],
   "proof",
   "Kani function contracts on the real DebruijnIndex/BoundVar shift functions, proved over the full u32/usize domains "
   "(loop-free, so complete), and the shift laws of C25 proved as lemmas over those contracts (stub_verified). "
+  "Verus proves on the verbatim text that the DEFAULT free-variable callbacks of both folder traits give back the same occurrence (index kept, depth shifted in by exactly outer_binder, "
+  "a constant's type folded at the same depth) — the leaf of 'a folder that changes nothing returns an equal term'. "
   "Leaf level only: the lifting to whole terms through TypeFoldable is an assumption.",
   "Assumed: derived/hand-written TypeFoldable impls are homomorphic and bump the binder depth exactly at binders "
   "(fold_is_homomorphic); Kani/CBMC soundness.",
@@ -37,11 +39,11 @@ P("C15", [("V7", None)],
   "Assumed: ena's snapshot/rollback/commit contract; the unifier keeps ena's snapshot stack balanced; Vec::clone spec of vstd.",
   "contract-based deductive verification: Verus on mechanically extracted function text, callee contracts + havoc")
 
-P("C19", [("K13", None), ("K13O", None)],
+P("C19", [("K13", None), ("K13O", None), ("V15", None)],
   "model_checking",
   "Kani on the real set_priorities over real petgraph forests: for every labelled DAG on <= 3 impls (thorough: selected 4-impl DAGs) no panic, every impl gets a priority, "
-  "and priorities strictly increase along every specialization edge; SpecializationPriorities::insert is replaced by its contract there (kani::stub) and the contract is proved against the "
-  "real IndexMap in the thorough tier only (hashbrown costs CBMC minutes). BOUNDED in the number of impls (exhaustive below the bound). "
+  "and priorities strictly increase along every specialization edge; SpecializationPriorities::insert is replaced by its contract there (kani::stub); that contract is proved, unbounded, by Verus on the verbatim "
+  "text of insert over an abstract IndexMap (and against the real IndexMap by Kani in the thorough tier). BOUNDED in the number of impls (exhaustive below the bound). "
   "The genuine defect this found (3-impl chain panicked) is repaired in /repo by commit cc02e05.",
   "Assumed: the forest handed to set_priorities is a DAG with edges from less to more special impls (the disjoint/specializes solver queries are not verified); petgraph and indexmap as compiled by Kani.",
   "contract-based verification with Kani: harness contracts + contract stub (kani::stub) for the callee, graphs enumerated concretely")
